@@ -832,7 +832,8 @@ void GridFourier::setAnisotropicRefinement(TypeDepth type, int min_growth, int o
     int level = 0;
     do{
         updateGrid(++level, type, weights, level_limits);
-    }while(getNumNeeded() < min_growth);
+    }while((getNumNeeded() < min_growth)
+           && !MultiIndexManipulations::isLimitsBoxFull(level_limits, {(updated_tensors.empty()) ? &tensors : &updated_tensors}));
 }
 
 void GridFourier::clearRefinement(){
